@@ -125,7 +125,9 @@ def run_module(m, budget, oracle):
         if isinstance(n, O.PROPERTY_NODES + O.EXTRA_NODES) and hasattr(n, "inferred_value") and hasattr(n, "lineno"):
             vals = [n.inferred_value]
             for v in getattr(n, "c01_values", []):
-                if not any(v is w or v == w for w in vals):
+                # identity only: == on values is a deep comparison of the constraint DAGs they carry
+                # (exponential on loop-carried and/or chains)
+                if not any(v is w for w in vals):
                     vals.append(v)
             inferred[O.node_key(n)] = vals
             kinds[O.node_key(n)] = type(n).__name__
